@@ -88,6 +88,14 @@ func c01random(r *vh.RNG, c c01cfg) *ref.FrameSpec {
 			s.Incompat = 1
 			s.LinkID = r.Byte()
 			s.Timestamp = r.U64() & 0xFFFFFFFFFFFF
+			switch r.Intn(12) {
+			case 0:
+				s.Timestamp = 0xFFFFFFFFFFFF // the largest value the 48-bit field holds
+			case 1:
+				s.Timestamp = 0
+			case 2:
+				s.Timestamp = 0xFFFFFFFFFFFE
+			}
 			copy(s.Signature[:], r.Bytes(6))
 		}
 	}
